@@ -184,6 +184,16 @@ theorem source_relevance_rules :
     Generated.relevanceRules =
       [ (b!"!=rpm", [T.doc, T.ghost, T.licence, T.license, T.readme]), (b!"!=deb", [T.debChangelog]) ] := by decide
 
+set_option maxRecDepth 100000 in
+/-- **relevance, tied by execution**: today's files.PrepareForPackager, run on one entry for every packager x every
+    content type x every packager tag (420 cases, tabulated on every run), plans the entry exactly when the model's
+    `isRelevant` says so (an entry typed `implicit dir` is never planned: such entries are only ever derived) -/
+theorem source_relevance_table :
+    Generated.relevanceTable.all (fun r =>
+      let c : Content := { dst := b!"/relx/entry", type := r.2.1, packager := r.2.2.1 }
+      if r.2.1 = T.implicitDir then r.2.2.2 == b!"out"
+      else r.2.2.2 == (if isRelevant r.1 c then b!"in" else b!"out")) = true := by decide
+
 /-- non-vacuity: a plan with two config entries and a plain file -/
 example :
     conffilesLines (conffiles
